@@ -230,6 +230,9 @@ func runProperty(p *Program, id, tier, work string, keep bool) int {
 			trusted[n] = true
 		}
 		us := map[string]any{"unit": u.Unit, "kind": u.Kind, "obligations": len(u.Obls), "cover": u.Cover, "wall_s": round2(u.WallS), "instances": u.Instances}
+		if len(u.DeadReturns) > 0 {
+			us["unreachable_returns"] = u.DeadReturns
+		}
 		if u.Error != "" {
 			us["error"] = u.Error
 			viols = append(viols, violation{unit: u.Unit, obligation: u.Unit + "#unit", reason: u.Error})
